@@ -514,3 +514,114 @@ def rule_main_detect(ctx, rep):
                   {"count": got["result"][0]["count"], "paths": gp}, {"count": len(want), "paths": want},
                   why="the report does not list exactly the paths that the filter leaves", sample={"filter": pat, "paths left": want})
     rep.count("filter patterns evaluated through main()", n)
+
+
+# ---------------------------------------------------------------------------------------------- history independence of whole runs (C14)
+
+HIST_X = ("#pragma version 6\nglobal GroupSize\nint 2\n==\nassert\ntxn Amount\nbz skip\ncallsub chk\nskip:\ngtxn 0 RekeyTo\nglobal ZeroAddress\n==\nassert\n"
+          "int 1\nreturn\nchk:\ntxn Fee\nint 1000\n<=\nassert\nretsub\n")
+HIST_Y = ("#pragma version 6\nintcblock 1 3\ntxn GroupIndex\nintc_0\n==\nbz other\ngtxn 1 CloseRemainderTo\nglobal ZeroAddress\n==\nassert\nother:\n"
+          "txn RekeyTo\nglobal ZeroAddress\n==\nreturn\n")
+
+
+def _run_summary(ctx, w, order, repeat=1, before=()):
+    """analyse (with the real analyses) the contracts in `before`, then HIST_X; run the detectors in the given registration order `repeat` times;
+    returns {detector: paths} of the last run, the JSON text, and the per-block contexts of X"""
+    pf = w.module(PF)
+    pf.values.pop("_apply_transaction_context_analysis", None)
+    init = w.func(COMMON, "init_tealer_from_single_contract")
+    for i, src in enumerate(before):
+        tl0 = w.call(init, src, f"before{i}")
+        for dc in order:
+            w.call(w.method(tl0, "register_detector"), dc)
+        w.call(w.method(tl0, "run_detectors"))
+    tl = w.call(init, HIST_X, "x")
+    teal = list(w.getattr(tl, "contracts").values())[0]
+    for dc in order:
+        w.call(w.method(tl, "register_detector"), dc)
+    results = None
+    for _ in range(repeat):
+        results = w.call(w.method(tl, "run_detectors"))
+    by_det = {}
+    flat = []
+    for r in results:
+        for o in (r if isinstance(r, list) else [r]):
+            flat.append(o)
+    for o in flat:
+        js = w.call(w.method(o, "to_json"))
+        by_det[js["check"]] = json.dumps(js, sort_keys=True, default=str)
+    fn = list(w.getattr(teal, "functions").values())[0]
+    ctxs = {}
+    for b in w.getattr(fn, "blocks"):
+        c = w.call(w.method(fn, "transaction_context"), b)
+        ctxs[w.getattr(b, "idx")] = {"sizes": list(w.getattr(c, "group_sizes")), "indices": list(w.getattr(c, "group_indices")),
+                                     "rekey": [w.getattr(w.getattr(c, "rekeyto"), "any_addr"), list(w.getattr(w.getattr(c, "rekeyto"), "possible_addr"))],
+                                     "fee": [w.getattr(c, "max_fee_unknown"), w.getattr(c, "max_fee")],
+                                     "types": [t.name for t in w.getattr(c, "transaction_types")],
+                                     "gtxn0.rekey": [w.getattr(w.getattr(w.call(w.method(c, "gtxn_context"), 0), "rekeyto"), "any_addr")]}
+    order_names = [json.loads(v)["check"] for v in by_det.values()]
+    return by_det, ctxs, order_names
+
+
+HIST_DETECTORS = ("rekey-to", "group-size-check", "missing-fee-check", "can-close-account", "is-updatable")
+HIST_VARIANTS = {"reference": dict(), "another contract analysed and checked first": dict(before=(HIST_Y,)),
+                 "the same contract analysed and checked first": dict(before=(HIST_X,)),
+                 "detectors registered in the opposite order": dict(reverse=True),
+                 "detectors run twice": dict(repeat=2)}
+
+
+def history_worker(args):
+    """one whole run in its own process and its own world"""
+    root, name = args
+    import sys
+    sys.setrecursionlimit(30000)
+    from ..context import Ctx
+    ctx = Ctx(root)
+    w = ctx.world
+    w.max_steps = 60_000_000
+    w.files, w.stdout = {}, []
+    kw = dict(HIST_VARIANTS[name])
+    dets = [d for n, d in sorted(detector_classes(ctx).items()) if n in HIST_DETECTORS]
+    if len(dets) != len(HIST_DETECTORS):
+        return name, ("ANALYSIS", f"detectors for the history rows not found ({len(dets)})")
+    if kw.pop("reverse", False):
+        dets = dets[::-1]
+    try:
+        return name, ("ok", _run_summary(ctx, w, dets, **kw))
+    except PyRaise as e:
+        return name, ("RAISES", f"{e.exc} {e.where}")
+    except Unsupported as e:
+        return name, ("ANALYSIS", str(e))
+
+
+def rule_history_runs(ctx, rep):
+    import concurrent.futures
+    rule = "T-HISTORY(runs)"
+    rep.rule(rule, "whole runs evaluated abstractly with the real analyses: the per-block contexts of a contract and every detector's JSON result "
+                   "are the same when another contract was analysed and checked before it in the same process, when the detectors are "
+                   "registered in the opposite order, and when they are run twice")
+    where = ctx.path("tealer.tealer")
+    with concurrent.futures.ProcessPoolExecutor(max_workers=len(HIST_VARIANTS)) as ex:
+        results = dict(ex.map(history_worker, [(str(ctx.root), n) for n in HIST_VARIANTS]))
+    for name, (kind, val) in results.items():
+        if kind == "ANALYSIS":
+            from ..report import AnalysisError
+            raise AnalysisError(f"{rule}: {name}: {val}")
+    kind, base = results["reference"]
+    if kind != "ok":
+        rep.violation(rule, "reference run completes", where, f"RAISES {base}", "results")
+        return
+    rep.check(len(base[0]) == len(HIST_DETECTORS) and len(base[1]) >= 4, rule, "reference run: five results and the contexts of the function's blocks", where,
+              {"results": sorted(base[0]), "blocks": len(base[1])}, "5 results")
+    for name, (kind, got) in results.items():
+        if name == "reference":
+            continue
+        if kind != "ok":
+            rep.violation(rule, f"{name}: completes", where, f"RAISES {got}", "results")
+            continue
+        diff_ctx = sorted(k for k in set(base[1]) | set(got[1]) if base[1].get(k) != got[1].get(k))
+        rep.check(not diff_ctx, rule, f"{name}: block contexts", where, {f"B{k}": got[1].get(k) for k in diff_ctx[:2]}, {f"B{k}": base[1].get(k) for k in diff_ctx[:2]},
+                  why="the contexts computed for a contract depend on what happened earlier in the process")
+        diff_det = sorted(k for k in set(base[0]) | set(got[0]) if base[0].get(k) != got[0].get(k))
+        rep.check(not diff_det, rule, f"{name}: detector results", where, {k: (got[0].get(k) or "")[:200] for k in diff_det[:2]}, {k: (base[0].get(k) or "")[:200] for k in diff_det[:2]},
+                  why="a detector's result depends on what ran before it", sample={"history": name, "results": sorted(base[0])})
